@@ -997,6 +997,7 @@ def check_ziprem(res, facts):
 
 
 def run(ctx, res):
+    from arklib import symex as SX_
     facts = ctx.facts(["ws", "shapes"])
     res.analysed = facts.stats()
     check_limb(res, facts)
@@ -1009,6 +1010,12 @@ def run(ctx, res):
     check_mulword(res, facts, ctx.tier)
     check_addword(res, facts, ctx.tier)
     check_ziprem(res, facts)
+    from rules import iter_override as IO
+    arr = lambda *l: SX_.Ref(SX_.Cell(SX_.Obj(adt="array", fields=dict(enumerate(l)))))
+    IO.check(res, facts, facts, [
+        ("ark_ff|BitIteratorLE", "ws", "ark_ff", "bits::BitIteratorLE", [SX_.Obj(adt="ark_ff::bits::BitIteratorLE", fields={0: arr(0b1011001101), 1: 0, 2: 10})], range(0, 13), (0, 3, 9, 10), 13),
+        ("ark_ff|BitIteratorBE", "ws", "ark_ff", "bits::BitIteratorBE", [SX_.Obj(adt="ark_ff::bits::BitIteratorBE", fields={0: arr(0b1011001101), 1: 10})], range(0, 13), (0, 3, 9, 10), 13),
+    ], "ark-ff bit iterators (BitIteratorLE / BitIteratorBE)")
     check_shifts(res, facts, ctx.tier)
     check_bitconv(res, facts, ctx.tier)
     return {
